@@ -56,9 +56,11 @@ vars == <<objs, mem, ph, hist>>
 View == <<objs, mem, ph>>
 
 Cell(v, d) == [v |-> v, d |-> d]
-Obj(k, of, r, c, cells, fl, pt, cls, src, pos) ==
+Obj(k, of, r, c, cells, fl, pt, cls, src, pos, via) ==
   [k |-> k, of |-> of, r |-> r, c |-> c, cells |-> cells, fl |-> fl, pt |-> pt,
-   cls |-> cls, src |-> src, pos |-> pos]
+   cls |-> cls, src |-> src, pos |-> pos, via |-> via]
+   \* via = the call that made the object: Clone and As<same type> reach the same heap, but are different
+   \* code paths, so they must remain different states of the enumeration
 St(op, s, a, b, c, d, w) == [op |-> op, s |-> s, a |-> a, b |-> b, c |-> c, d |-> d, w |-> w]
 
 (* ---- abstract derivative state -----------------------------------------
@@ -98,12 +100,12 @@ Permuted(M, cs, f) ==
      THEN M[cs[f[CHOOSE p \in 1..Len(cs) : cs[p] = x]]] ELSE M[x]]
 Rank(M, cs, q) == 1 + Cardinality({x \in 1..Len(cs) : M[cs[x]].v < M[cs[q]].v})
 
-AddCopy(O, M, s, k, r, c, cs, fl, pt, keepd) ==
-  [O |-> Append(O, Obj(k, "", r, c, Fresh(M, Len(cs)), fl, pt, "copy", s, 0)),
+AddCopy(O, M, s, k, r, c, cs, fl, pt, keepd, via) ==
+  [O |-> Append(O, Obj(k, "", r, c, Fresh(M, Len(cs)), fl, pt, "copy", s, 0, via)),
    M |-> M \o [p \in 1..Len(cs) |-> Cell(M[cs[p]].v, IF keepd THEN M[cs[p]].d ELSE 0)],
    res |-> <<>>]
-AddRef(O, M, s, k, of, r, c, cs, pos) ==
-  [O |-> Append(O, Obj(k, of, r, c, cs, O[s].fl, O[s].pt, "ref", s, pos)), M |-> M, res |-> <<>>]
+AddRef(O, M, s, k, of, r, c, cs, pos, via) ==
+  [O |-> Append(O, Obj(k, of, r, c, cs, O[s].fl, O[s].pt, "ref", s, pos, via)), M |-> M, res |-> <<>>]
 Probe(O, M, cs) == [O |-> O, M |-> M, res |-> Vals(M, cs)]
 Wr(O, M2) == [O |-> O, M |-> M2, res |-> <<>>]
 OnCells(M, cs, F(_)) == [x \in 1..Len(M) |-> IF \E p \in 1..Len(cs) : cs[p] = x THEN F(M[x]) ELSE M[x]]
@@ -114,18 +116,18 @@ Effect(O, M, st) ==
       n  == NC(o)
       op == st.op
   IN
-  CASE op \in {"clone", "asSame"} -> AddCopy(O, M, st.s, o.k, o.r, o.c, o.cells, o.fl, o.pt, TRUE)
-    [] op = "asFlip"  -> AddCopy(O, M, st.s, o.k, o.r, o.c, o.cells, ~o.fl, o.pt, TRUE)
-    [] op = "asType"  -> AddCopy(O, M, st.s, o.k, o.r, o.c, o.cells, o.fl, ~o.pt, FALSE)
-    [] op = "row"     -> AddCopy(O, M, st.s, "v", 1, o.c, RowCells(o, st.a), o.fl, o.pt, TRUE)
-    [] op = "col"     -> AddCopy(O, M, st.s, "v", 1, o.r, ColCells(o, st.a), o.fl, o.pt, TRUE)
-    [] op = "slice"   -> AddRef(O, M, st.s, "v", "", 1, st.b - st.a, SubSeq(o.cells, st.a + 1, st.b), 0)
+  CASE op \in {"clone", "asSame"} -> AddCopy(O, M, st.s, o.k, o.r, o.c, o.cells, o.fl, o.pt, TRUE, op)
+    [] op = "asFlip"  -> AddCopy(O, M, st.s, o.k, o.r, o.c, o.cells, ~o.fl, o.pt, TRUE, op)
+    [] op = "asType"  -> AddCopy(O, M, st.s, o.k, o.r, o.c, o.cells, o.fl, ~o.pt, FALSE, op)
+    [] op = "row"     -> AddCopy(O, M, st.s, "v", 1, o.c, RowCells(o, st.a), o.fl, o.pt, TRUE, op)
+    [] op = "col"     -> AddCopy(O, M, st.s, "v", 1, o.r, ColCells(o, st.a), o.fl, o.pt, TRUE, op)
+    [] op = "slice"   -> AddRef(O, M, st.s, "v", "", 1, st.b - st.a, SubSeq(o.cells, st.a + 1, st.b), 0, op)
     [] op = "mslice"  -> AddRef(O, M, st.s, "m", "", st.b - st.a, st.d - st.c,
-                                SliceCells(o, st.a, st.b, st.c, st.d), 0)
-    [] op = "T"       -> AddRef(O, M, st.s, "m", "", o.c, o.r, TCells(o), 0)
-    [] op = "elem"    -> AddRef(O, M, st.s, "s", "", 1, 1, <<CellAt(o, st.a, st.b)>>, 0)
-    [] op = "iter"    -> AddRef(O, M, st.s, "i", o.k, o.r, o.c, o.cells, 1)
-    [] op = "itclone" -> AddRef(O, M, st.s, "i", o.of, o.r, o.c, o.cells, o.pos)
+                                SliceCells(o, st.a, st.b, st.c, st.d), 0, op)
+    [] op = "T"       -> AddRef(O, M, st.s, "m", "", o.c, o.r, TCells(o), 0, op)
+    [] op = "elem"    -> AddRef(O, M, st.s, "s", "", 1, 1, <<CellAt(o, st.a, st.b)>>, 0, op)
+    [] op = "iter"    -> AddRef(O, M, st.s, "i", o.k, o.r, o.c, o.cells, 1, op)
+    [] op = "itclone" -> AddRef(O, M, st.s, "i", o.of, o.r, o.c, o.cells, o.pos, op)
     (* probes *)
     [] op = "diag"     -> Probe(O, M, DiagCells(o))
     [] op \in {"asvector", "asmatrix"} -> Probe(O, M, o.cells)
@@ -206,9 +208,9 @@ InitVals ==
     [] Fam = "vec" -> IF Pat = "z" THEN <<1, 0, 2>> ELSE <<1, 2, 3>>
     [] Fam = "mat" -> IF Pat = "z" THEN <<1, 0, 2, 0, 3, 4>> ELSE <<1, 2, 3, 4, 5, 6>>
 InitObj ==
-  CASE Fam = "sca" -> Obj("s", "", 1, 1, <<1>>, FALSE, FALSE, "own", 0, 0)
-    [] Fam = "vec" -> Obj("v", "", 1, 3, <<1, 2, 3>>, FALSE, FALSE, "own", 0, 0)
-    [] Fam = "mat" -> Obj("m", "", 2, 3, <<1, 2, 3, 4, 5, 6>>, FALSE, FALSE, "own", 0, 0)
+  CASE Fam = "sca" -> Obj("s", "", 1, 1, <<1>>, FALSE, FALSE, "own", 0, 0, "make")
+    [] Fam = "vec" -> Obj("v", "", 1, 3, <<1, 2, 3>>, FALSE, FALSE, "own", 0, 0, "make")
+    [] Fam = "mat" -> Obj("m", "", 2, 3, <<1, 2, 3, 4, 5, 6>>, FALSE, FALSE, "own", 0, 0, "make")
 
 DeriveCands(O, M, s) ==
   LET o == O[s]  n == NC(o) IN
